@@ -313,9 +313,10 @@ def scriptStep (sc : Script) : ScriptOp → Except String (Script × String)
     let sc' := if sc.objs.contains h then { sc with st := release sc.st h } else sc
     .ok (sc', "p:" ++ obs sc' h)
   | .methRel h =>
-    -- `name.pool` dereferences the receiver: a nil *Name panics (Go specification).
+    -- a nil *Name returns at the guard `name == nil` (repo fix "(*Name).Release on a nil Name is a
+    -- no-op"); the script ends there with the final token `ok-nilrecv`.
     -- For a zero / cleared Name `name.pool` is a nil *pool, whose Release returns at `name.id == nil`.
-    if !sc.objs.contains h then .error "panic-nilrecv"
+    if !sc.objs.contains h then .error "ok-nilrecv"
     else
       let sc' := { sc with st := release sc.st h }
       .ok (sc', "m:" ++ obs sc' h)
